@@ -292,3 +292,70 @@ def propagate_locals(tree: ast.Module, keep: Dict[str, Set[str]], unstable_attrs
 
 def baseline_keep(rel: str) -> Dict[str, Set[str]]:
     return {}
+
+
+# ---------------------------------------------------------------------------------------------------------------------------
+# loops over a literal tuple
+MAX_UNROLL = 4
+
+
+def unroll_literal_loops(tree: ast.Module) -> int:
+    """`for x in (A, B): BODY` over a literal tuple / list of at most MAX_UNROLL names, attributes or constants is the same as
+    BODY[x := A]; BODY[x := B] when BODY neither rebinds `x` nor leaves the loop early (`break` / `continue` of this loop), the
+    loop has no `else`, and `x` is read nowhere else in the routine.  Table-driven loops and repeated statements are two
+    spellings of the same thing; rules see the repeated statements."""
+    count = 0
+
+    def leaves_early(body: List[ast.stmt]) -> bool:
+        todo: List[ast.AST] = list(body)
+        while todo:
+            n = todo.pop()
+            if isinstance(n, (ast.Break, ast.Continue)):
+                return True
+            if isinstance(n, (ast.For, ast.AsyncFor, ast.While)):
+                # break / continue inside a nested loop belong to that loop; its `else` arm belongs to us
+                todo.extend(n.orelse)
+                continue
+            if isinstance(n, (ast.FunctionDef, ast.AsyncFunctionDef, ast.Lambda, ast.ClassDef)):
+                continue
+            todo.extend(ast.iter_child_nodes(n))
+        return False
+
+    def do_fn(fn: ast.AST) -> None:
+        nonlocal count
+
+        def reads_total(name: str) -> int:
+            return sum(1 for x in ast.walk(fn) if isinstance(x, ast.Name) and x.id == name)
+
+        def block(body: List[ast.stmt]) -> List[ast.stmt]:
+            nonlocal count
+            out: List[ast.stmt] = []
+            for st in body:
+                for fld in ('body', 'orelse', 'finalbody'):
+                    sub = getattr(st, fld, None)
+                    if isinstance(sub, list) and sub and isinstance(sub[0], ast.stmt) and not isinstance(st, (ast.FunctionDef, ast.AsyncFunctionDef, ast.ClassDef)):
+                        setattr(st, fld, block(sub))
+                for hd in getattr(st, 'handlers', []) or []:
+                    hd.body = block(hd.body)
+                if (isinstance(st, ast.For) and not st.orelse and isinstance(st.target, ast.Name) and isinstance(st.iter, (ast.Tuple, ast.List))
+                        and 1 <= len(st.iter.elts) <= MAX_UNROLL and all(isinstance(e, (ast.Name, ast.Attribute, ast.Constant)) for e in st.iter.elts)
+                        and not leaves_early(st.body)):
+                    x = st.target.id
+                    inside = sum(1 for b in st.body for n in ast.walk(b) if isinstance(n, ast.Name) and n.id == x)
+                    rebinds = any(isinstance(n, ast.Name) and n.id == x and isinstance(n.ctx, (ast.Store, ast.Del)) for b in st.body for n in ast.walk(b))
+                    nested_fn = any(isinstance(n, (ast.Lambda, ast.FunctionDef, ast.AsyncFunctionDef)) for b in st.body for n in ast.walk(b))
+                    if not rebinds and not nested_fn and reads_total(x) == inside + 1:
+                        for e in st.iter.elts:
+                            rep = _Replace(x, e)
+                            out.extend(rep.visit(copy.deepcopy(b)) for b in st.body)
+                        count += 1
+                        continue
+                out.append(st)
+            return out
+
+        fn.body = block(fn.body)  # type: ignore[attr-defined]
+
+    for n in ast.walk(tree):
+        if isinstance(n, (ast.FunctionDef, ast.AsyncFunctionDef)):
+            do_fn(n)
+    return count
